@@ -93,14 +93,20 @@ var SchemaType = &schema.ObjectType{
 			Type: TypeType,
 			Cost: schema.FieldResolverCost(0),
 			Resolve: func(ctx schema.FieldContext) (interface{}, error) {
-				return ctx.Schema.MutationType(), nil
+				if t := ctx.Schema.MutationType(); t != nil && t.RequiredFeatures.IsSubsetOf(ctx.Features) {
+					return t, nil
+				}
+				return nil, nil
 			},
 		},
 		"subscriptionType": {
 			Type: TypeType,
 			Cost: schema.FieldResolverCost(0),
 			Resolve: func(ctx schema.FieldContext) (interface{}, error) {
-				return ctx.Schema.SubscriptionType(), nil
+				if t := ctx.Schema.SubscriptionType(); t != nil && t.RequiredFeatures.IsSubsetOf(ctx.Features) {
+					return t, nil
+				}
+				return nil, nil
 			},
 		},
 		"directives": {
